@@ -57,10 +57,18 @@ def run(rep, facts, tier):
     for s_, t_, cond, lab in edges:
         if cond[0] == 'call' and cond[1].endswith('AssemblyBuffer::is_complete') and lab is True:
             buf = cond[2][0]
-            okb = has_call(buf, '::or_insert_with') and has_call(buf, '::entry') and has_field(buf, 'writer_sn') and has_field(buf, 'assembly_buffers')
+            # either entry(sn).or_insert_with(new) or the explicit match on Entry::{Occupied => into_mut, Vacant => insert(new)}
+            okb = (has_call(buf, '::or_insert_with') or has_call(buf, '::or_insert') or (has_call(buf, '::into_mut') and has_call(buf, '::insert'))) and \
+                has_call(buf, '::entry') and (has_field(buf, 'writer_sn') or term_has(buf, lambda x: x[0] == 'field' and x[1] == 'writer_sn')) and has_field(buf, 'assembly_buffers')
             rep.check(okb, 'R05.2', 'new_datafrag/buffer-of-sn', 'buffer = assembly_buffers.entry(datafrag.writer_sn).or_insert_with(new)',
                       'the completeness test is not made on the buffer selected by the DATAFRAG\'s own sequence number', nd.where(s_))
     ins = [(bb, t) for bb, t in nd.calls() if call_matches(t, 'AssemblyBuffer::insert_frags')]
+    # R05.9: no fragment is turned away: every path through new_datafrag records the fragment first
+    rep.rule('R05.9', 'every DATAFRAG handed to the assembler is recorded: all paths of new_datafrag from entry to a return pass insert_frags on the buffer of its sequence number '
+                      '(a fragment dropped because of what happened to *other* samples can never be completed)')
+    every = bool(ins) and all(P.every_path_passes(None, (r, 'term'), via_pos=[(bb, 'term') for bb, _t in ins], from_entry=True) for r in nd.return_blocks())
+    rep.check(every, 'R05.9', 'new_datafrag/always-inserted', 'insert_frags on every path', 'new_datafrag can return without recording the fragment (a path avoids insert_frags): '
+              'fragments of a sample are discarded on a condition that does not depend on that sample, so it never completes although every fragment arrives', nd.where())
     okI = bool(ins)
     for bb, t in ins:
         buf = og.of_operand(t['args'][0], bb, 'term')
